@@ -468,8 +468,10 @@ class Address:
         rslt = rslt and (self.addrNet == arg.addrNet)
         rslt = rslt and (self.addrAddr == arg.addrAddr)
 
-        # if both have routes they must match
-        if rslt and self.addrRoute and arg.addrRoute:
+        # a route aware stack also matches the routes, if both have one; when
+        # the stack is not route aware the route is no part of the address
+        # (see _tuple), otherwise 1:2@3 == 1:2 == 1:2@4 but 1:2@3 != 1:2@4
+        if rslt and settings.route_aware and self.addrRoute and arg.addrRoute:
             rslt = rslt and (self.addrRoute == arg.addrRoute)
 
         return rslt
